@@ -152,6 +152,11 @@ def check(F, R, tier):
             r_ = lib.cas_loop_fresh(R, fn_, c.site, 'LOOP::%s::decision-recomputed-per-iteration' % fnkey(fn_), 'the last-role / already-connected decision must be taken on the value the CAS compares against (a peer may attach or detach between the load and the CAS)')
             if r_ is None:
                 R.ob('LOOP', 'LOOP::%s::decision-recomputed-per-iteration' % fnkey(fn_), False, 'anchor-missing: the role CAS is not inside a retry loop', c.site.where, fn_)
+    # the role word is changed only by compare_exchange (attach and detach are read-modify-write on one word shared by both sides):
+    # a plain store / swap / fetch_* in these functions loses the peer's concurrent reservation
+    for fn_ in (rpf, rsf):
+        others = [a for a in fn_.atomic_ops() if re.search(r'^self\.state$', a.recv) and a.op not in ('load',) and not a.op.startswith('compare_exchange')]
+        R.ob('WHO-MAY-CALL', 'WHO-MAY-CALL::%s::role-word-changed-only-by-CAS' % fnkey(fn_), not others, 'self.state is modified only through compare_exchange (%d other modifying atomic op(s): %s)' % (len(others), [a.op for a in others]), others[0].site.where if others else '%s:%s' % (fn_.file, fn_.line), fn_)
     mfd = [s for s in rsf.sites if s.is_call and (s.callee or '').endswith('State::value') and rsf.enum_variant_of(s.args[0]) is None]
     # MarkedForDestruction is chosen exactly under current == state_to_remove
     sites = [s for s in rsf.sites if s.i != 'T' and s.node[0] == 'a' and s.node[2][0] == 'agg' and s.node[2][1][0] == 'adt' and s.node[2][1][1].endswith('::State') and s.node[2][1][2] == 'MarkedForDestruction']
